@@ -107,6 +107,22 @@ def run(ctx, rep):
                 rep.underivable(key + "/lm=%d" % lm, clause + " for every building (k_exp = 0, non-negative factors)",
                                 construct=where, why="difference of the numerators is not a sum of non-negative terms: %s"
                                 % A.show(p, 2)[:500])
+    # the RER fractions are proper only if the weighted exports are weighted with the documented factors; the one
+    # factor the code derives itself (cogenerated electricity) is decided by C02's shape rule, re-stated here
+    from . import c02
+    from .common import Report
+    sub2 = Report("C02")
+    c02.run(ctx, sub2)
+    cg = [o for o in sub2.obligations if o.key.startswith("C02/cgn/")]
+    if not cg:
+        rep.violated("C13/N4/cgn/anchor", "the derived cogeneration factor is analysable", why="no C02/cgn obligation")
+    for o in cg:
+        k = "C13/N4/cgn/" + "/".join(o.key.split("/")[2:])
+        if o.status == "discharged":
+            rep.discharged(k, "exported cogenerated electricity is weighted with Σ F·input / Σ production (all production lines): " + o.clause, nontrivial=False)
+        else:
+            rep.violated(k, "the resources attributed to exported cogenerated electricity never exceed those delivered for it",
+                         construct=o.construct, why=o.why)
     rep.analysed = {"carriers": 12}
 
 
